@@ -191,10 +191,10 @@ impl<W: 'static, R: 'static, T: 'static> XGenerator<W, R, T> {
                 })
             }),
             Self::Chain(arr) => either_f({
+                // each part is pulled only as far as the consumer asks: a part may be endless
                 arr.iter().flat_map(move |gen| {
-                    to_native!(gen, Self)
-                        ._iter(ns, rt.clone())
-                        .collect::<Vec<_>>()
+                    let part: BIter<_, _, _> = Box::new(to_native!(gen, Self)._iter(ns, rt.clone()));
+                    part
                 })
             }),
             Self::Slice(gen, start, end) => either_g({
